@@ -1032,10 +1032,9 @@ class ServerSSM(SSM):
     def segmented_request(self, apdu):
         if _debug: ServerSSM._debug("segmented_request %r", apdu)
 
-        # some kind of problem
+        # the client gives up, nothing is sent back
         if (apdu.apduType == AbortPDU.pduType):
             self.set_state(COMPLETED)
-            self.response(apdu)
             return
 
         # the only messages we should be getting are confirmed requests
@@ -1173,10 +1172,9 @@ class ServerSSM(SSM):
                 self.fill_window(self.initialSequenceNumber)
                 self.restart_timer(self.segmentTimeout)
 
-        # some kind of problem
+        # the client gives up, nothing is sent back
         elif (apdu.apduType == AbortPDU.pduType):
             self.set_state(COMPLETED)
-            self.response(apdu)
 
         else:
             raise RuntimeError("invalid APDU (7)")
